@@ -83,6 +83,7 @@ type Discharger struct {
 	solverS  float64
 	byBack   map[string]int
 	splits   []string
+	answers  map[string]int // "<backend>:<status>" over every solver run on a proof obligation
 }
 
 func (d *Discharger) solveOne(w *World, o *Obligation) {
@@ -101,6 +102,9 @@ func (d *Discharger) solveOne(w *World, o *Obligation) {
 	tmo := d.timeoutS
 	if o.Expect == "sat" {
 		tmo = 3
+		if d.thorough {
+			tmo = 10
+		}
 	}
 	r := runSolver(solvers[0], sc.Text, file, tmo)
 	record(r)
@@ -112,6 +116,11 @@ func (d *Discharger) solveOne(w *World, o *Obligation) {
 		r2 := runSolver(solvers[1], sc.Text, file, tmo)
 		record(r2)
 		results = append(results, r2)
+		if d.thorough {
+			r3 := runSolver(solvers[2], sc.Text, file, tmo)
+			record(r3)
+			results = append(results, r3)
+		}
 	}
 	if (!decided(r) || d.thorough) && o.Expect != "sat" {
 		var wg sync.WaitGroup
@@ -140,6 +149,16 @@ func (d *Discharger) solveOne(w *World, o *Obligation) {
 		if rr.status == "unsat" {
 			sawUnsat = true
 		}
+	}
+	if o.Expect != "sat" {
+		d.mu.Lock()
+		if d.answers == nil {
+			d.answers = map[string]int{}
+		}
+		for _, rr := range results {
+			d.answers[rr.backend+":"+rr.status]++
+		}
+		d.mu.Unlock()
 	}
 	if sawSat && sawUnsat {
 		d.mu.Lock()
